@@ -7,13 +7,21 @@ package lib
 import (
 	"bytes"
 	"errors"
+	"fmt"
+	"io"
 	"math"
 	"sort"
+	"strconv"
 	"strings"
 
 	cid "github.com/ipfs/go-cid"
+	ipld "github.com/ipld/go-ipld-prime"
 	"github.com/ipld/go-ipld-prime/codec/dagjson"
+	"github.com/ipld/go-ipld-prime/datamodel"
 	"github.com/ipld/go-ipld-prime/node/basicnode"
+	"github.com/ipld/go-ipld-prime/node/bindnode"
+	"github.com/ipld/go-ipld-prime/schema"
+	"github.com/ipld/go-ipld-prime/testutil"
 	rjson "github.com/polydawn/refmt/json"
 	"github.com/polydawn/refmt/tok"
 )
@@ -212,4 +220,233 @@ func JsonReservedNeighbourhood(r *Rng) []*Val {
 		)
 	}
 	return out
+}
+
+// ---------------------------------------------------------------------------------------------
+// Holders for bytes values.  C04 says the encoding is a function of the value alone, whichever node
+// implementation holds it; bytes values can be held by nodes that stream their content
+// (datamodel.LargeBytesNode), whose readers may return short reads.
+//
+//   lbreader        basicnode.NewBytesFromReader over a bytes.Reader
+//   lbshort<seed>   ... over a reader whose every Read returns 1..7 bytes (length a function of seed, offset)
+//   lbbig<seed>     ... over a reader returning 1..5000 bytes per Read (crosses any fixed chunk size)
+//   lbone           ... over a reader returning one byte per Read
+//   lbmulti<seed>   testutil.NewMultiByteNode with chunk lengths 0..7 (function of seed, chunk index)
+//   bindbytes       bindnode over []byte / [][]byte / map[string][]byte (root bytes, list of bytes, map of bytes)
+// In the lb* holders every bytes value of the tree (root or nested in basicnode maps/lists) is such a node.
+
+type shortReader struct {
+	data []byte
+	off  int64
+	seed uint64
+	max  int
+}
+
+func mix(a, b uint64) uint64 {
+	z := a*0x9E3779B97F4A7C15 + b + 0x632BE59BD9B4E019
+	z = (z ^ (z >> 30)) * 0xBF58476D1CE4E5B9
+	z = (z ^ (z >> 27)) * 0x94D049BB133111EB
+	return z ^ (z >> 31)
+}
+
+func (r *shortReader) Read(p []byte) (int, error) {
+	if r.off >= int64(len(r.data)) {
+		return 0, io.EOF
+	}
+	if len(p) == 0 {
+		return 0, nil
+	}
+	n := 1 + int(mix(r.seed, uint64(r.off))%uint64(r.max))
+	if n > len(p) {
+		n = len(p)
+	}
+	n = copy(p[:n], r.data[r.off:])
+	r.off += int64(n)
+	return n, nil
+}
+
+func (r *shortReader) Seek(offset int64, whence int) (int64, error) {
+	switch whence {
+	case io.SeekCurrent:
+		offset += r.off
+	case io.SeekEnd:
+		offset += int64(len(r.data))
+	}
+	if offset < 0 {
+		return 0, fmt.Errorf("negative seek")
+	}
+	r.off = offset
+	return offset, nil
+}
+
+func bytesNodeMaker(holder string) (func(string) datamodel.Node, bool) {
+	seedOf := func(prefix string) uint64 {
+		u, _ := strconv.ParseUint(strings.TrimPrefix(holder, prefix), 10, 64)
+		return u
+	}
+	switch {
+	case holder == "lbreader":
+		return func(b string) datamodel.Node { return basicnode.NewBytesFromReader(bytes.NewReader([]byte(b))) }, true
+	case holder == "lbone":
+		return func(b string) datamodel.Node {
+			return basicnode.NewBytesFromReader(&shortReader{data: []byte(b), max: 1})
+		}, true
+	case strings.HasPrefix(holder, "lbshort"):
+		sd := seedOf("lbshort")
+		return func(b string) datamodel.Node {
+			return basicnode.NewBytesFromReader(&shortReader{data: []byte(b), seed: sd, max: 7})
+		}, true
+	case strings.HasPrefix(holder, "lbbig"):
+		sd := seedOf("lbbig")
+		return func(b string) datamodel.Node {
+			return basicnode.NewBytesFromReader(&shortReader{data: []byte(b), seed: sd, max: 5000})
+		}, true
+	case strings.HasPrefix(holder, "lbmulti"):
+		sd := seedOf("lbmulti")
+		return func(b string) datamodel.Node {
+			var chunks [][]byte
+			data := []byte(b)
+			for i := uint64(0); len(data) > 0; i++ {
+				n := int(mix(sd, i) % 8)
+				if n > len(data) {
+					n = len(data)
+				}
+				chunks = append(chunks, data[:n])
+				data = data[n:]
+			}
+			return testutil.NewMultiByteNode(chunks...)
+		}, true
+	}
+	return nil, false
+}
+
+func assembleBytesVia(na datamodel.NodeAssembler, v *Val, mk func(string) datamodel.Node) error {
+	switch v.Kind {
+	case KBytes:
+		return na.AssignNode(mk(v.S))
+	case KList:
+		la, err := na.BeginList(int64(len(v.L)))
+		if err != nil {
+			return err
+		}
+		for _, x := range v.L {
+			if err := assembleBytesVia(la.AssembleValue(), x, mk); err != nil {
+				return err
+			}
+		}
+		return la.Finish()
+	case KMap:
+		ma, err := na.BeginMap(int64(len(v.M)))
+		if err != nil {
+			return err
+		}
+		for _, e := range v.M {
+			va, err := ma.AssembleEntry(e.K)
+			if err != nil {
+				return err
+			}
+			if err := assembleBytesVia(va, e.V, mk); err != nil {
+				return err
+			}
+		}
+		return ma.Finish()
+	}
+	return Assemble(na, v)
+}
+
+type bindMapBytes struct {
+	Keys   []string
+	Values map[string][]byte
+}
+
+var (
+	bbTS                 *schema.TypeSystem
+	bbRoot, bbMap, bbLst schema.Type
+)
+
+func bbInit() {
+	if bbTS != nil {
+		return
+	}
+	ts, err := ipld.LoadSchemaBytes([]byte("type BB bytes\ntype BMap {String:Bytes}\ntype BList [Bytes]\n"))
+	if err != nil {
+		panic(err)
+	}
+	bbTS, bbRoot, bbMap, bbLst = ts, ts.TypeByName("BB"), ts.TypeByName("BMap"), ts.TypeByName("BList")
+}
+
+func allBytes(vs []*Val) bool {
+	for _, x := range vs {
+		if x.Kind != KBytes {
+			return false
+		}
+	}
+	return true
+}
+
+// JsonBuildHolder builds v in the named holder (the shared holders plus the bytes holders above).
+func JsonBuildHolder(holder string, v *Val) (datamodel.Node, error) {
+	if mk, ok := bytesNodeMaker(holder); ok {
+		if v.Kind == KBytes {
+			return mk(v.S), nil
+		}
+		nb := basicnode.Prototype.Any.NewBuilder()
+		if err := assembleBytesVia(nb, v, mk); err != nil {
+			return nil, err
+		}
+		return nb.Build(), nil
+	}
+	if holder == "bindbytes" {
+		bbInit()
+		var proto datamodel.NodePrototype
+		switch v.Kind {
+		case KBytes:
+			proto = bindnode.Prototype((*[]byte)(nil), bbRoot)
+		case KList:
+			proto = bindnode.Prototype((*[][]byte)(nil), bbLst)
+		case KMap:
+			proto = bindnode.Prototype((*bindMapBytes)(nil), bbMap)
+		default:
+			return nil, fmt.Errorf("bindbytes cannot hold this value")
+		}
+		nb := proto.NewBuilder()
+		if err := Assemble(nb, v); err != nil {
+			return nil, err
+		}
+		return nb.Build(), nil
+	}
+	return BuildHolder(holder, v)
+}
+
+func hasBytes(v *Val) bool {
+	found := false
+	v.walk(func(x *Val) {
+		if x.Kind == KBytes {
+			found = true
+		}
+	})
+	return found
+}
+
+// JsonBytesHolders lists the bytes holders able to hold v (none when v has no bytes value).
+func JsonBytesHolders(r *Rng, v *Val) []string {
+	if !hasBytes(v) {
+		return nil
+	}
+	hs := []string{"lbreader", "lbone", fmt.Sprintf("lbshort%d", r.Intn(1000)), fmt.Sprintf("lbbig%d", r.Intn(1000)), fmt.Sprintf("lbmulti%d", r.Intn(1000))}
+	if v.Kind == KBytes || (v.Kind == KList && allBytes(v.L)) {
+		hs = append(hs, "bindbytes")
+	}
+	if v.Kind == KMap {
+		ok := true
+		for _, e := range v.M {
+			if e.V.Kind != KBytes {
+				ok = false
+			}
+		}
+		if ok {
+			hs = append(hs, "bindbytes")
+		}
+	}
+	return hs
 }
